@@ -131,16 +131,27 @@ def r4_contiguous(ctx: Ctx, sp: FuncInfo) -> None:
     import re._constants as sre_c
     fl = get_flow(ctx.proj, sp)
     n = 0
+    from ._tables import fold_str, module_value
+    mi = sp.module
     for c in fl.calls('sub'):
-        if dotted(c.func) != 're.sub' or len(c.args) < 3:
+        if dotted(c.func) == 're.sub' and len(c.args) >= 3:
+            pat, repl, subj = c.args[0], c.args[1], c.args[2]
+        elif isinstance(c.func, ast.Attribute) and isinstance(c.func.value, ast.Name) and len(c.args) >= 2 and (cv := module_value(mi, c.func.value.id)) is not None \
+                and isinstance(cv, ast.Call) and dotted(cv.func) == 're.compile' and cv.args:
+            # a precompiled module-level pattern: PATTERN.sub(repl, text)
+            pat, repl, subj = cv.args[0], c.args[0], c.args[1]
+        else:
             continue
-        pat, repl, subj = c.args[0], c.args[1], c.args[2]
         if not (isinstance(repl, ast.Constant) and repl.value == ''):
             continue          # not a deletion (e.g. the metacharacter escaping)
         n += 1
         if not isinstance(pat, ast.Constant):
-            ctx.fail('C19.R4', sp, f'delete:{src(pat)[:30]}', f'deletion with a computed pattern {src(pat)[:40]!r}', c)
-            continue
+            # a pattern put together from constants (a table of prefixes joined with |) is as good as a literal
+            folded = fold_str(pat, mi)
+            if folded is None:
+                ctx.fail('C19.R4', sp, f'delete:{src(pat)[:30]}', f'deletion with a computed pattern {src(pat)[:40]!r}', c)
+                continue
+            pat = ast.copy_location(ast.Constant(value=folded), pat)
         try:
             tree = sre_parse.parse(pat.value)
         except Exception as e:
